@@ -226,7 +226,7 @@ def run(ctx: core.Ctx):
         k = rng.randint(0, 4)
         im = getattr(fl, rng.choice(["Minimum", "AlgebraicProduct", "EinsteinProduct"]))
         ag = getattr(fl, rng.choice(["Maximum", "AlgebraicSum", "BoundedSum", "EinsteinSum"]))
-        degs = [rng.choice([rng.random(), 1.0, 0.0, 1e-5, 2e-9, 0.5]) for _ in range(k)]
+        degs = [rng.choice([rng.random(), 1.0, 0.0, 1e-5, 2e-9, 0.5]) for _ in range(k)] if i % 4 else [rng.choice([1e-315, 3e-310, 5e-324, 1e-300, 0.0]) for _ in range(k)]   # every fourth set lives among the subnormal numbers
         tsel = [rng.randrange(len(mk)) for _ in range(k)]
         agg = fl.Aggregated("o", lo, hi, ag(), [fl.Activated(mk[t](), d, im()) for t, d in zip(tsel, degs)])
         case = {"lo": lo, "hi": hi, "res": res, "terms": tsel, "degrees": degs, "impl": im.__name__, "aggr": ag.__name__}
@@ -244,7 +244,8 @@ def run(ctx: core.Ctx):
         agg2 = fl.Aggregated("o", lo2, hi2, ag(), [fl.Activated(mk2[t](), d, im()) for t, d in zip(tsel, degs)])
         c2 = float(np.asarray(fl.Centroid(res).defuzzify(agg2, lo2, hi2)))
         # a sample point may sit on the edge of the Rectangle (index 1) and move across it by rounding when shifted: only continuous sets are compared
-        if 1 not in tsel and not feq(c2, v1["Centroid"] + c, 1e-6 * max(1.0, abs(lo), abs(hi)) / 1.0) and not (math.isnan(c2) and math.isnan(v1["Centroid"])):
+        # (among the subnormal numbers x * y keeps a few bits only: the computed centroid is too coarse for the relation)
+        if i % 4 and 1 not in tsel and not feq(c2, v1["Centroid"] + c, 1e-6 * max(1.0, abs(lo), abs(hi)) / 1.0) and not (math.isnan(c2) and math.isnan(v1["Centroid"])):
             ctx.violation("relations/Centroid/translation", dict(case, shift=c), v1["Centroid"] + c, c2)
     ctx.exhaustive = True
     ctx.rule = (f"TLC enumerates sets of 0..{ml} activated terms over 5 terms x 4 degrees x 3 implications x 3 aggregations x 4 resolutions (replayed to 2 terms"
